@@ -364,6 +364,17 @@ func longBody(c *nd.Ctx) nd.Result {
 			return res
 		}
 	}
+	// ... and whatever kind of reader delivers it: the standard in-memory
+	// readers (which know their length) against the plain one
+	if size == 1<<30 {
+		for name, r := range map[string]io.Reader{"strings.Reader": strings.NewReader(s), "bytes.Reader": bytes.NewReader([]byte(s)), "bytes.Buffer": bytes.NewBufferString(s)} {
+			mt, merr, mv := decode(r, 6*len(s)+16)
+			if mv == nil && (fmt.Sprint(merr) != fmt.Sprint(err) || !sameToks(mt, toks)) {
+				res.Violation = &nd.Violation{Sig: "chunking:long-input-depends-on-the-kind-of-reader", Msg: fmt.Sprintf("%d bytes of %q newline=%d: a plain reader gives %d tokens (%v), a %s gives %d tokens (%v)", len(s), pat, nl, len(toks), err, name, len(mt), merr)}
+				return res
+			}
+		}
+	}
 	switch {
 	case err == io.EOF:
 		if cat.String() != s {
